@@ -164,6 +164,25 @@ NEEDS = {
     "C17-8": "a parameter file that is a symbolic link to a regular file: skipped silently",
     "C18-8": "parse_char of an integer k*2^32 + d (d a digit): the digit instead of an error",
     "C19-8": "two resources of one type whose logical ids are not adjacent in sorted order (another type sorts between them): only the last run's values reach the rule",
+    "C01-9": "`<=` where a compared pair is exactly equal: evaluated as `<`",
+    "C02-9": "a type block selecting two resources whose bodies come out PASS and SKIP (no FAIL): the block is SKIP instead of PASS",
+    "C03-9": "prefix not/NOT/! on a binary clause whose left-hand property is absent from the data: PASS, the operator-level negation FAILs",
+    "C04-9": "rules that reference each other in a cycle with an asymmetric edge (`not`, `or`): the cycle is cut to SKIP where the evaluator enters it, statuses follow the rule order",
+    "C05-9": "`test` with two or more differently misspelt expectations in one case: the reported one follows the hash order",
+    "C06-9": "plain `test` with several test files of one rules file, a mismatching file processed before an all-matching one: exit 0",
+    "C07-9": "a rule name defined twice, both definitions applying with different outcomes: the --show-summary table lists only the first outcome",
+    "C08-9": "a `keys` filter on an empty map, or against a variable whose query selects nothing: panic (unreachable)",
+    "C09-9": "an `or` line that passes through a later alternative, inside a rule that fails for another reason: the failed alternative is listed as a failed check",
+    "C10-9": "a query spelled in another case convention than the document whose rest does not resolve: the report stops at the map where the convention was chosen",
+    "C11-9": "a flow-style YAML document (opens with { or [, not valid JSON) given to the library API: refused",
+    "C12-9": "SARIF for several data files with the same violation (rule, message, position): the later file's finding is dropped",
+    "C13-9": "`X not in <query>` where X equals none of the selected values and the query selects at least as many values as X: FAIL",
+    "C14-9": "a type block with conditions written `WHEN` (upper case): parsed as a when-block inside the type block, conditions evaluated per resource",
+    "C15-9": "a `keys` filter whose right-hand side is a variable bound to a literal (string, list, regex): selects nothing",
+    "C16-9": "`test` -o json|yaml|junit with partial expectations where a rule without expectation is defined before one with: later rules vanish, exit 0",
+    "C17-9": "an -i argument that contributes no parameter file (notes directory, other file kind) after one that does: the earlier parameters are dropped",
+    "C18-9": "substring(s, i, j) with i < len(s) < j: the tail instead of skipping the string",
+    "C19-9": "a string property whose value is the empty string: no clause (and no rule if it is the only property)",
 }
 
 
